@@ -5,6 +5,7 @@ CONSTANTS
   AppendGuard = TRUE
   FreshCookie = TRUE
   UseSecureDefault = FALSE
+  SnapshotDefault = FALSE
   Depth = 3
   Bases = {"x-a", "etag"}
   Casings = {0, 1, 17}
